@@ -599,6 +599,37 @@ func genC9Sprintf(t *rapid.T, depth int) *c9Node {
 		n.List = n.List[:len(n.List)-1]
 	}
 	n.Text = b.String()
+	// pieces can merge ("%%%" followed by "%v" reads as "%%", "%%", "v"): pair the arguments with the verbs the final text really has and
+	// keep every argument inside what its verb accepts (%T: identifier-like or snippet, %v: value or snippet)
+	rs := []rune(n.Text)
+	argi := 0
+	for i := 0; i < len(rs); i++ {
+		if rs[i] != '%' || i+1 >= len(rs) {
+			continue
+		}
+		i++
+		if rs[i] != 'v' && rs[i] != 'T' {
+			if rs[i] != '%' {
+				break // an unsupported verb panics before later arguments are looked at
+			}
+			continue
+		}
+		if argi >= len(n.List) {
+			break
+		}
+		a := n.List[argi]
+		switch {
+		case rs[i] == 'T' && (a.Kind == "int" || a.Kind == "bool" || a.Kind == "str"):
+			n.List[argi] = &c9Node{Kind: "id", Text: "Foo"}
+		case rs[i] == 'v' && (a.Kind == "id" || a.Kind == "rtype"):
+			n.List[argi] = &c9Node{Kind: "int", Int: 7}
+		}
+		argi++
+	}
+	// surplus arguments are outside the statement
+	if argi < len(n.List) {
+		n.List = n.List[:argi]
+	}
 	return n
 }
 
